@@ -22,6 +22,7 @@ import numpy as np
 from .. import universe as U
 from .. import meshgen as G
 from .. import elements as EL
+from ..par import Pool
 from ..core import guarded, MachineryError
 from ..project import fx, ids
 
@@ -431,24 +432,32 @@ def replay_recipes(out_file, tier, rng):
     return recs
 
 
+def _scen(args):
+    return scenario(*args)
+
+
 def run(ctx):
     th = ctx.tier == 'thorough'
-    pool = ThreadPoolExecutor(max_workers=1)
-    fut = pool.submit(model, ctx)                                # M runs while the code is driven
-    meshes, rng = find_meshes(ctx.tier, ctx.seed)
-    recs = [find_recipe(k, p, t, rng, fam, nsingle=40 if th else 24, nbatch=10 if th else 5)
-            for (k, p, t, fam) in meshes]
-    prng = np.random.default_rng(ctx.seed + 1014)
-    for name, meta in EL.CATALOGUE.items():
-        for variant in range(2 if th else 1):
-            p, t = probe_meshes(meta['kind'], prng, variant + len(name))
-            recs.append(probe_recipe(meta['kind'], p, t, name, prng, 'probe-mesh'))
-    scs = [scenario(f'C14-{k}', r) for k, r in enumerate(recs)]
-    ctx.validate('TraceC14', scs)
-    out_file = fut.result()
-    rrecs = replay_recipes(out_file, ctx.tier, np.random.default_rng(ctx.seed + 2014))
-    rscs = [scenario(f'C14-R{k}', r) for k, r in enumerate(rrecs)]
-    ctx.validate('TraceC14', rscs)
+    procs = Pool()                                                # forked before any thread exists
+    try:
+        tp = ThreadPoolExecutor(max_workers=1)
+        fut = tp.submit(model, ctx)                               # M runs while the code is driven
+        meshes, rng = find_meshes(ctx.tier, ctx.seed)
+        recs = [find_recipe(k, p, t, rng, fam, nsingle=40 if th else 24, nbatch=10 if th else 5)
+                for (k, p, t, fam) in meshes]
+        prng = np.random.default_rng(ctx.seed + 1014)
+        for name, meta in EL.CATALOGUE.items():
+            for variant in range(2 if th else 1):
+                p, t = probe_meshes(meta['kind'], prng, variant + len(name) + ctx.seed)
+                recs.append(probe_recipe(meta['kind'], p, t, name, prng, 'probe-mesh'))
+        scs = procs.map(_scen, [(f'C14-{k}', r) for k, r in enumerate(recs)])
+        ctx.validate('TraceC14', scs)
+        out_file = fut.result()
+        rrecs = replay_recipes(out_file, ctx.tier, np.random.default_rng(ctx.seed + 2014))
+        rscs = procs.map(_scen, [(f'C14-R{k}', r) for k, r in enumerate(rrecs)])
+        ctx.validate('TraceC14', rscs)
+    finally:
+        procs.close()
     keys = {json.dumps([r['kind'], r['p'], r['t'], r.get('elem', '')]) for r in recs + rrecs if len(r['t'][0]) >= 2}
     ctx.notes['distinct_nontrivial'] = len(keys)
     ctx.notes['scenarios_from_tlc_universe'] = len(rrecs)
@@ -460,7 +469,7 @@ def run(ctx):
         'query points are dyadic; points outside the mesh by less than 2^-10 of a cell (relative) carry no demand',
         'ties between equidistant centroids are broken by the lower index in the transcription only (drift is '
         'evidence, not a verdict)',
-        'interpolator with trailing axes is driven for scalar elements only',
+        'interpolator with trailing axes is driven for scalar elements only; point_source for scalar elements only',
         'TLC 1.8.0 and the CommunityModules Json module are trusted'],
         exhaustive=False)
 
